@@ -651,6 +651,8 @@ func LockDepth(d int) {
 type Deadlock struct{ At string }
 
 // MutexLock replaces x.Lock() / x.RLock() in the code under test.
+//
+//go:norace
 func MutexLock(lock func(), try func() bool, at string) {
 	t := cur
 	if t == nil {
